@@ -486,10 +486,12 @@ def witness_family(rep, tier='quick'):
         tmp = common.new_report('C16', tier, 'translation_validation')
         witness_obligations(tmp, tier, common.program('K0'))
         rows = [dict(key=o.key, rule=o.rule, fn=o.fn, site=o.site, what=o.what, ok=o.ok, detail=o.detail, how=o.how, witness=o.witness) for o in tmp.obls]
-        os.makedirs(os.path.dirname(cf), exist_ok=True)
-        with open(cf + '.tmp', 'w') as f:
-            json.dump(rows, f)
-        os.replace(cf + '.tmp', cf)
+        # (a build failure without a diagnostic is reported but not cached: the next check of the same tree tries again)
+        if not any('the witness crate does not build' in str(r.get('detail', '')) for r in rows):
+            os.makedirs(os.path.dirname(cf), exist_ok=True)
+            with open(cf + '.tmp', 'w') as f:
+                json.dump(rows, f)
+            os.replace(cf + '.tmp', cf)
     for r in rows:
         rep.ob(r['key'], r['rule'], r['fn'], r['site'], r['what'], r['ok'], detail=r['detail'], how=r['how'], witness=r['witness'])
     return len(rows)
